@@ -940,6 +940,65 @@ theorem pinv_run (h : List (Op Text)) (hn : h.length ≤ u32Max) :
   have := pinv_foldl (pinv_new (Text := Text)) h (by omega)
   simpa [projRun, Spec.final] using this
 
+/-! ### Rename (document layer) -/
+
+omit [DecidableEq Text] in
+theorem pinv_congr {p : Proj Text} {m m' : Nat → Option Text} {n : Nat} (h : ∀ k, m k = m' k)
+    (i : PInv p m n) : PInv p m' n :=
+  { db := i.db, nodup := i.nodup, inj := i.inj, bound := i.bound, next := i.next, orphan := i.orphan,
+    spec := fun k => (i.spec k).trans (h k), live := i.live }
+
+omit [DecidableEq Text] in
+theorem pinv_mono {p : Proj Text} {m : Nat → Option Text} {n n' : Nat} (h : n ≤ n')
+    (i : PInv p m n) : PInv p m n' :=
+  { db := i.db, nodup := i.nodup, inj := i.inj, bound := i.bound, next := Nat.le_trans i.next h,
+    orphan := i.orphan, spec := i.spec, live := i.live }
+
+theorem pinv_rename {p : Proj Text} {m : Nat → Option Text} {n : Nat} (i : PInv p m n)
+    (hn : n + 3 ≤ u32Max) (old new : Nat) :
+    PInv (projRename p old new) (Spec.stepX m (.rename old new)) (n + 3) := by
+  have hold : projText p old = m old := i.spec old
+  unfold projRename
+  simp only [Spec.stepX]
+  rw [hold]
+  cases hm : m old with
+  | none => exact pinv_mono (by omega) i
+  | some t =>
+    simp only
+    have i1 := pinv_remove i old
+    have i2 := pinv_remove i1 new
+    have i3 := pinv_set i2 (by unfold u32Max at *; omega) new t
+    refine pinv_congr ?_ i3
+    intro g
+    simp only [Spec.step]
+    by_cases h1 : g = new
+    · simp [h1]
+    · by_cases h2 : g = old <;> simp [h1, h2]
+
+theorem pinv_stepX {p : Proj Text} {m : Nat → Option Text} {n : Nat} (i : PInv p m n)
+    (hn : n + 3 ≤ u32Max) (op : POp Text) :
+    PInv (projStepX p op) (Spec.stepX m op) (n + 3) := by
+  cases op with
+  | op o => exact pinv_mono (by omega) (pinv_step i (by unfold u32Max at *; omega) o)
+  | rename old new => exact pinv_rename i hn old new
+
+theorem pinv_foldlX {p : Proj Text} {m : Nat → Option Text} {n : Nat} (i : PInv p m n)
+    (h : List (POp Text)) (hn : n + 3 * h.length ≤ u32Max) :
+    PInv (h.foldl projStepX p) (h.foldl Spec.stepX m) (n + 3 * h.length) := by
+  induction h generalizing p m n with
+  | nil => exact i
+  | cons op rest ih =>
+    simp only [List.length_cons] at hn ⊢
+    have := ih (pinv_stepX i (by omega) op) (by omega)
+    have e : n + 3 + 3 * rest.length = n + 3 * (rest.length + 1) := by omega
+    rw [e] at this
+    exact this
+
+theorem pinv_runX (h : List (POp Text)) (hn : 3 * h.length ≤ u32Max) :
+    PInv (projRunX h) (Spec.finalX h) (3 * h.length) := by
+  have := pinv_foldlX (pinv_new (Text := Text)) h (by omega)
+  simpa [projRunX, Spec.finalX] using this
+
 end inv
 
 end TrustVerif.C13
